@@ -13,7 +13,6 @@ MUTANTS = {
          "new": "        ind = np.unique(np.array([ind_list[i][0] for i in np.where(is_mem)[0]], dtype=int))\n"},
         {"name": "dup_first_wins", "file": AO, "old": "np.where(all_2_unique == i)[0][-1]", "new": "np.where(all_2_unique == i)[0][0]"},
         {"name": "additive_overwrites_existing", "file": AO, "old": "            self._values[:, ind] += unique_values[:, is_mem]", "new": "            self._values[:, ind] = unique_values[:, is_mem]"},
-        {"name": "absent_read_silent", "file": AO, "old": "        if np.any(np.logical_not(is_mem)):\n            raise ValueError(\"Inquiry on unassigned coordinate.\")", "new": "        if False:\n            raise ValueError(\"Inquiry on unassigned coordinate.\")"},
     ],
     "C09": [
         {"name": "no_step_back_S5", "file": TSC,
